@@ -396,6 +396,69 @@ int main(int argc, char** argv)
   if (tsan) max_bound = ctx.thorough() ? 1 : 0;
   for (size_t i = 0; i + 1 < ctx.extra_args.size(); ++i) if (ctx.extra_args[i] == "--bound") max_bound = atoi(ctx.extra_args[i + 1].c_str());
 
+  // ---- model-conformance mode (DESIGN 3.5, harness C18_model): for the given L bodies, explore ALL schedules (no preemption bound)
+  //      and write the complete event trace of every execution, one per line: "<body>|tid:event,tid:event,...|outcome-ok"
+  {
+    std::string trace_file; std::vector<std::string> trace_bodies;
+    for (size_t i = 0; i + 1 < ctx.extra_args.size(); ++i)
+      {
+        if (ctx.extra_args[i] == "--traces") trace_file = ctx.extra_args[i + 1];
+        if (ctx.extra_args[i] == "--trace-ops") trace_bodies.push_back(ctx.extra_args[i + 1]);
+      }
+    if (!trace_file.empty())
+      {
+        struct Obs { std::string ev; } obs;
+        auto observer = +[](void* user, const vomp_point* p, int /*next*/) {
+          Obs* o = static_cast<Obs*>(user);
+          std::string e;
+          switch (p->kind)
+            {
+            case VOMP_K_START: e = "start"; break;
+            case VOMP_K_CRITICAL: e = "crit"; break;
+            case VOMP_K_DONE: e = "done"; break;
+            case VOMP_K_JOIN: e = "join"; break;
+            case VOMP_K_HOOK:
+              {
+                const std::string site = p->site ? p->site : "";
+                if (site.size() >= 5 && site.compare(site.size() - 5, 5, ".fill") == 0) e = "fill";
+                else if (site.find(".before_publish") != std::string::npos) e = "pub";
+                else e = "hook:" + site;
+                break;
+              }
+            default: e = "kind" + std::to_string(p->kind); break;
+            }
+          if (!o->ev.empty()) o->ev += ",";
+          o->ev += std::to_string(p->tid) + ":" + e;
+        };
+        FILE* f = fopen(trace_file.c_str(), "w");
+        if (!f) { fprintf(stderr, "cannot write %s\n", trace_file.c_str()); return 2; }
+        for (const std::string& opsstr : trace_bodies)
+          {
+            Body body = make_L(vmc::ints(opsstr), 1);
+            vomp_set_team_size(1);
+            const std::string ref = body.run();
+            vomp_set_team_size(body.threads);
+            vompx::Explorer ex;
+            long long nexec = 0, bad = 0;
+            ex.body = [&](vompx::Execution& x) {
+              obs.ev.clear();
+              vomp_set_observer(observer, &obs);
+              std::string w;
+              const bool threw = small::throws([&] { x.outcome = body.run(); }, &w);
+              vomp_set_observer(nullptr, nullptr);
+              const bool ok = !threw && x.outcome == ref;
+              ++nexec; if (!ok) ++bad;
+              fprintf(f, "%s|%s|%d\n", opsstr.c_str(), obs.ev.c_str(), ok ? 1 : 0);
+            };
+            vompx::Result r;
+            ex.explore(1 << 20, r);
+            fprintf(f, "#summary %s schedules=%lld complete=%d bad=%lld\n", opsstr.c_str(), nexec, r.complete ? 1 : 0, bad);
+          }
+        fclose(f);
+        return 0;
+      }
+  }
+
   auto all = bodies(ctx.thorough(), tsan);
   // replay: case = "body=<name>;bound=<b>;sched=<c0,c1,...>"
   std::map<std::string, std::string> rk; if (ctx.replaying()) rk = vmc::kv(ctx.replay);
